@@ -324,6 +324,9 @@ def run(tier):
             check_generation(res, P, B, g, rp)
     res.floor("public key-generation functions", n_gen, 1)
 
+    # -- (e) conversions store the caller's bytes unmodified
+    check_stored_bytes(res, P)
+
     # -- (d) verify / sign / public_key
     check_verify(res, P)
     check_sign(res, P)
@@ -336,7 +339,7 @@ def run(tier):
                               "key generation ends with octet writes that establish the predicate for every initial value, verify returns the library verdict "
                               "unnegated and sign/public_key pass the caller's message and the key's own bytes. NOT decided: that cryptoxide's signatures, "
                               "public keys and verdicts agree with RFC 8032.",
-                  rule_text="R-CTORS(SecretKeyExtended) + R-TABLE(structure predicate == RFC 8032 pruning) + clamp writes + R-PROV(verify, sign, public_key)",
+                  rule_text="R-CTORS(SecretKeyExtended) + R-TABLE(structure predicate == RFC 8032 pruning) + clamp writes + R-FRAME(conversions store caller bytes unmodified) + R-PROV(verify, sign, public_key)",
                   trusted_base=["rustc MIR", "spec/ed25519_clamp.json", "cryptoxide"])
 
 
@@ -504,3 +507,80 @@ def check_sign(res, P):
             res.ok(key, "R-PROV", "public key derived by the library from the key's own bytes")
         else:
             res.violation(key, "%s does not return the public key the library derives from the key's own bytes" % f.path, where=where(f), rule="R-PROV")
+
+
+KEY_TYPES = [MOD + "Signature", MOD + "PublicKey", MOD + "SecretKey", SKE]
+BYTES_PARAM = re.compile(r"^(&(?:'\w+ )?)?(\[u8(; [^\]]+)?\]|str)$")
+FILLERS = re.compile(r"^core::slice::(copy_from_slice|clone_from_slice)$|^hex::decode_to_slice$")
+
+
+def check_stored_bytes(res, P):
+    n_fn = 0
+    for f in P.fns.values():
+        if not f.path.startswith(MOD) and not f.path.startswith("<" + MOD):
+            continue
+        if "::tests::" in f.path or f.kind == "Closure":
+            continue
+        bparams = [i for i in range(1, f.argc + 1) if BYTES_PARAM.match(f.local_ty(i))]
+        if not bparams:
+            continue
+        key_locals = [i for i, l in enumerate(f.locals) if i > f.argc and l["ty"] in KEY_TYPES]
+        aggs = [(bi, si, rv) for T in KEY_TYPES for bi, si, rv in flow.aggregates(f, "^" + re.escape(T) + "$")]
+        if not aggs and not key_locals:
+            continue
+        n_fn += 1
+        key = "stored-bytes:%s" % f.path.split("pallas_crypto::key::")[-1]
+        bad = None
+        # (1) arrays moved into the value
+        for bi, si, rv in aggs:
+            src = f.sym_operand(rv["fields"][0])
+            root = src
+            while root[0] in ("ref", "deref", "cast") or (root[0] == "call" and re.search(r"::clone$", sg(root[1])) and len(root[2]) == 1):
+                root = root[1] if root[0] != "call" else root[2][0]
+            if root[0] == "param":
+                continue                      # stable parameter (never reassigned, written through or mutably borrowed)
+            if root[0] == "local" and 1 <= root[1] <= f.argc:
+                bad = "the parameter `%s` is modified before it is stored" % (f.local_name(root[1]) or "_%d" % root[1])
+                break
+            if root[0] == "local":
+                # a working buffer: it must itself be filled only from the caller's data
+                key_locals.append(root[1])
+                continue
+            if root[0] in ("repeat", "const"):
+                continue                      # constant initial value (zero()), filled afterwards: checked below
+            if not any(x[0] == "param" and x[1] in bparams for x in sym_walk(src)):
+                continue                      # not caller bytes (library result)
+            bad = "the stored bytes are %s, not the caller's bytes as given" % sym_str(src, 70)
+            break
+        # (2) values filled in place
+        if bad is None:
+            for L in sorted(set(key_locals)):
+                for bi2, si2, st in f.statements():
+                    if st[0] == "a" and not isinstance(st[1], int):
+                        ch = flow.origin_chain(f.sym_place(st[1]))
+                        if ch is not None and ch[0] == ("local", L) and any(e[0] in ("index", "cindex", "subslice") for e in st[1][1]):
+                            bad = "an element of the stored bytes is overwritten with %s" % sym_str(f.sym_rvalue(st[2], 12), 60)
+                            break
+                if bad:
+                    break
+                for bi2, t in f.calls():
+                    for i, a in enumerate(t["args"]):
+                        ch = flow.origin_chain(f.sym_operand(a))
+                        if ch is None or ch[0] != ("local", L) or not call_is_mut_receiver(f, bi2, i):
+                            continue
+                        name = sg(t.get("f") or t.get("g") or "")
+                        others = [f.sym_operand(x) for j, x in enumerate(t["args"]) if j != i]
+                        if FILLERS.search(name) and any(y[0] == "param" and y[1] in bparams for o in others for y in sym_walk(o)) and \
+                                all(flow.origin_chain(o) is not None for o in others):
+                            continue
+                        bad = "the stored bytes are also written by %s(%s)" % (name, ", ".join(sym_str(o, 30) for o in others))
+                        break
+                    if bad:
+                        break
+                if bad:
+                    break
+        if bad:
+            res.violation(key, "%s takes caller bytes but does not store them as given: %s" % (f.path, bad), where=where(f), rule="R-FRAME")
+        else:
+            res.ok(key, "R-FRAME", "the caller's bytes are stored unmodified")
+    res.floor("conversions from caller bytes", n_fn, 4)
